@@ -43,7 +43,7 @@ func init() {
 	Checks["C01"] = &Check{Level: "model_checking", Run: CheckK("C01", []string{"dec", "dec-of-revoked-ik", "dec-of-expired-ik", "dec-cross-process", "C01.records-rechecked"}), QuickBudget: 300, ThoroughBudget: 1800, ReplayOps: kReplay("C01")}
 	Checks["C03"] = &Check{Level: "model_checking", Run: CheckK("C03", []string{"C03.enc-checked", "ik-created"}), QuickBudget: 300, ThoroughBudget: 1800, ReplayOps: kReplay("C03")}
 	Checks["C04"] = &Check{Level: "model_checking", Run: CheckK("C04", []string{"enc", "ik-created", "C04.parent-sk-expired", "C04.parent-sk-expired-more-than-R"}), QuickBudget: 300, ThoroughBudget: 1800, ReplayOps: kReplay("C04")}
-	Checks["C05"] = &Check{Level: "model_checking", Run: CheckK("C05", []string{"C05.ik-revoked", "C05.ik-revoked-more-than-R", "C05.parent-sk-revoked", "C05.parent-sk-revoked-more-than-2R"}), QuickBudget: 300, ThoroughBudget: 1800, ReplayOps: kReplay("C05")}
+	Checks["C05"] = &Check{Level: "model_checking", Run: CheckK("C05", []string{"C05.ik-revoked", "C05.ik-revoked-more-than-R", "C05.parent-sk-revoked", "C05.parent-sk-revoked-more-than-2R", "C05.dec-under-revoked-chain"}), QuickBudget: 300, ThoroughBudget: 1800, ReplayOps: kReplay("C05")}
 	Checks["C09"] = &Check{Level: "model_checking", Run: func(r *Report) {
 		if child := os.Getenv("VHARNESS_CHILD"); strings.HasPrefix(child, "C09s/") {
 			c09Schedules(r) // scenario child process: only that scenario
